@@ -4,6 +4,7 @@ Property theorems over Model/Pitch.lean and the regenerated tables.
 -/
 import PartituraModel.Model.Pitch
 import PartituraModel.Proofs.Round
+import PartituraModel.Proofs.Digits
 import Mathlib.Tactic.IntervalCases
 
 namespace C12
@@ -82,6 +83,93 @@ theorem midi_spelling (p : Int) :
 /-- `step2pc` is the pitch class of the spelled pitch -/
 theorem step2pc_spec (s : String) (a b : Int) (h : lookup s BASE_PC = some b) :
     step2pc s a = some ((b + a) % 12) := by simp [step2pc, h]
+
+/-! ### note names -/
+
+theorem takeWhile_prefix {α : Type} (p : α → Bool) (l1 l2 : List α) (h1 : ∀ x ∈ l1, p x = true)
+    (h2 : ∀ x ∈ l2.head?, p x = false) : (l1 ++ l2).takeWhile p = l1 ∧ (l1 ++ l2).dropWhile p = l2 := by
+  induction l1 with
+  | nil =>
+    cases l2 with
+    | nil => simp
+    | cons y ys =>
+      have : p y = false := h2 y (by simp)
+      simp [List.takeWhile, List.dropWhile, this]
+  | cons x xs ih =>
+    have hx : p x = true := h1 x (by simp)
+    have := ih (fun y hy => h1 y (by simp [hy]))
+    simp [List.takeWhile, List.dropWhile, hx, this.1, this.2]
+
+def stepFacts (s : String) : Bool :=
+  match (upper s).toList with
+  | [c] => isStepChar c && decide (upper (String.ofList [c]) = s)
+  | _ => false
+
+def accFacts (a : Int) : Bool :=
+  let f := (accString a).toList
+  f.all isAccChar &&
+    decide (lookup (if f.isEmpty then "n" else String.ofList f) SIGN_TO_ALTER = some (some a))
+
+theorem name_tables :
+    (∀ s ∈ ["C", "D", "E", "F", "G", "A", "B"], stepFacts s = true) ∧
+    (∀ a ∈ [(-3 : Int), -2, -1, 0, 1, 2, 3], accFacts a = true) := by decide
+
+/-- **note-name round trip** for every step, every alteration −3..3 and EVERY octave ≥ 0 (no bound):
+    parsing the printed name returns the spelling -/
+theorem name_roundtrip (s : String) (hs : s ∈ ["C", "D", "E", "F", "G", "A", "B"])
+    (a : Int) (ha : a ∈ [(-3 : Int), -2, -1, 0, 1, 2, 3]) (o : Nat) :
+    noteNameToSpelling (spellingToNoteName s a (o : Int)) = some (s, some a, (o : Int)) := by
+  have hsf := name_tables.1 s hs
+  have haf := name_tables.2 a ha
+  unfold stepFacts at hsf
+  unfold accFacts at haf
+  split at hsf
+  · rename_i c hc
+    simp only [Bool.and_eq_true, decide_eq_true_eq] at hsf haf
+    obtain ⟨hstep, hup⟩ := hsf
+    obtain ⟨hacc, hlook⟩ := haf
+    have hshow : showInt (o : Int) = showNat o := by
+      unfold showInt
+      have : ¬ ((o : Int) < 0) := by omega
+      simp [this]
+    have hname : (spellingToNoteName s a (o : Int)).toList = c :: ((accString a).toList ++ natDigits o) := by
+      unfold spellingToNoteName
+      rw [hshow]
+      simp [String.toList_append, hc, showNat]
+    have hdig := Digits.natDigits_all o
+    have hne := Digits.natDigits_ne_nil o
+    have htw := takeWhile_prefix isAccChar (accString a).toList (natDigits o)
+      (by simpa [List.all_eq_true] using hacc)
+      (by
+        intro x hx
+        cases hd : natDigits o with
+        | nil => exact absurd hd hne
+        | cons y ys =>
+          rw [hd] at hx
+          simp only [List.head?_cons, Option.mem_def, Option.some.injEq] at hx
+          subst hx
+          have := (hdig y (by rw [hd]; simp)).2
+          simp only [Bool.and_eq_true, bne_iff_ne, ne_eq] at this
+          simp [isAccChar, this.1.1, this.1.2, this.2])
+    have htd : (natDigits o).takeWhile Char.isDigit = natDigits o := by
+      have := (takeWhile_prefix Char.isDigit (natDigits o) [] (fun x hx => (hdig x hx).1) (by simp)).1
+      simpa using this
+    unfold noteNameToSpelling
+    rw [hname]
+    simp only [searchNoteName, matchNoteNameAt, hstep, if_true, htw.1, htw.2, htd]
+    have hemp : (natDigits o).isEmpty = false := by
+      cases hd : natDigits o with
+      | nil => exact absurd hd hne
+      | cons y ys => rfl
+    simp only [hemp, Bool.false_eq_true, if_false, hlook, hup, Digits.digitsToNat_natDigits]
+  · simp at hsf
+
+/-- the printed name of a spelling sounds the spelled pitch (names ↔ MIDI through the spelling) -/
+theorem name_midi (s : String) (hs : s ∈ ["C", "D", "E", "F", "G", "A", "B"])
+    (a : Int) (ha : a ∈ [(-3 : Int), -2, -1, 0, 1, 2, 3]) (o : Nat) :
+    noteNameToMidi (spellingToNoteName s a (o : Int)) = spellingToMidi s (some a) (o : Int) := by
+  unfold noteNameToMidi
+  rw [name_roundtrip s hs a ha o]
 
 /-! ### keys -/
 
